@@ -345,6 +345,7 @@ package tchannel
 
 // getHost: the prefix before the first ':' (the whole string if there is none).
 //@ func getHost(hostPort string) (host string)
+//@   pure
 //@   ensures len(host) <= len(hostPort)
 //@   ensures host == hostPort[:len(host)]
 //@   ensures len(host) < len(hostPort) ==> hostPort[len(host)] == ':'
@@ -1035,14 +1036,16 @@ package tchannel
 //@   label channel-state-only-moves-forward
 //@   history ch.mutable.state >= old(ch.mutable.state)
 
+// (the value read is the one left in the sequential heap; other threads are
+// modelled by the havoc at the next acquisition of the lock)
 //@ func (c *Connection) readState() (s connectionState)
 //@   modifies c.state
-//@   ensures 1 <= s && s <= 4
+//@   ensures 1 <= s && s <= 4 && s == c.state
 //@   property C07
 
 //@ func (ch *Channel) State() (s ChannelState)
 //@   modifies ch.mutable.state
-//@   ensures 1 <= s && s <= 5
+//@   ensures 1 <= s && s <= 5 && s == ch.mutable.state
 //@   property C07
 
 // close: only Active -> StartClose; any other state is an error and the state is left alone.
@@ -1058,6 +1061,7 @@ package tchannel
 
 //@ func (ch *Channel) Close()
 //@   nosafety
+//@   requires ch.mutable.idleSweep != nil && ch.mutable.idleSweep.ch != nil && ch.mutable.idleSweep.ch.log != nil
 //@   modifies all
 //@   property C07
 
